@@ -11,6 +11,8 @@ if rc != 0:
 fired = {}
 try:
     _rc, out = run(["/venv/bin/python", "/verif/sa/check.py", "--all", "--no-evidence"])
+    if "Traceback" in out or _rc not in (0, 1, 2):
+        fired["ENGINE"] = {"CRASH: " + out.strip().splitlines()[-1][:100]}
     for line in out.splitlines():
         m = re.match(r"\s+(C\d+\.R\w+) FAILS at (\S+)", line)
         if m:
